@@ -621,8 +621,10 @@ func (n *node) shared() bool {
 	return false
 }
 
-// dropNullsBelowSlice is the value GenAlter returns today for null-keeping options: null members of
-// objects that lie below a slice are gone (known finding C18-genalter-array-options). changed
+// dropNullsBelowSlice is the value GenAlter returned for null-keeping options before repository
+// commit b3f7ab1: null members of objects that lie below a slice gone (finding
+// C18-genalter-array-options, now in the fixed list; the predicate only matters while an entry of that
+// id is in the known list). changed
 // reports whether anything was dropped.
 func (n *node) dropNullsBelowSlice(below bool, changed *bool) *node {
 	switch n.k {
